@@ -103,9 +103,13 @@ def containment(ctx):
                   'callPollFunc does not catch Exception around the poll function: errors other than the caught ones end the poll thread', cp)
         if t is None:
             continue
+        cpcfg = CFG(cp.node, m, cp.module)
+        flag = cp.node.args.args[2].arg if len(cp.node.args.args) > 2 else 'raise_com_failed'
+        asked = sides_with_fact(cpcfg, lambda a, tv: tv and isinstance(a, ast.Name) and a.id == flag)
+        comfail = sides_with_fact(cpcfg, lambda a, tv: tv and isinstance(a, ast.Call) and dotted(a.func) == 'isinstance' and 'CommunicationFailedError' in src(a))
         for node in [x for st in h.body for x in walk_local(st) if isinstance(x, ast.Raise)]:
-            guards = [a.test for a in ancestors(node) if isinstance(a, ast.If) and a is not None]
-            ok = any(_guard_is_comfail(g) for g in guards)
+            # the re-raise lies only where the tests established both facts (one combined test or nested ones)
+            ok = bool(cpcfg.ids(node)) and set(cpcfg.ids(node)) <= (asked & comfail)
             ctx.check(ok, f'{cp.qualname}:re-raise only for start-up communication failure', node,
                       'guarded by raise_com_failed and isinstance(e, CommunicationFailedError)',
                       'callPollFunc re-raises outside the start-up communication-failure guard: a failing read ends the poll thread', cp)
